@@ -100,7 +100,9 @@ pub fn vcmp(a: &V, b: &V) -> Option<Ordering> {
             Some(x.len().cmp(&y.len()))
         }
         (V::Obj(_), V::Obj(_)) => {
-            if veq(a, b) {
+            // identical objects are equal; for any other pair - also one that differs only in the order of its
+            // members - the documentation fixes no order
+            if a == b {
                 Some(Ordering::Equal)
             } else {
                 None
